@@ -255,7 +255,22 @@ var badRaw = []string{
 // line's "msg=", a node prefix, a stray byte): a parser may accept or refuse that, but a Push that reports
 // success has taken the record.
 func rawFor(id int, seq uint32) string {
-	return rawPrefix(id) + fmt.Sprintf("audit(1700000000.%03d:%d): nonce=%d", id%1000, seq, id)
+	return rawPrefix(id) + fmt.Sprintf("audit(%d.%03d:%d): nonce=%d", []int64{1700000000, 4102444800, 1700000000, 1}[seq%4], id%1000, seq, id)
+}
+
+// stampFor: the time a record says it was written at — the same for all records of a sequence number — is the
+// sender's business: unset, an hour ahead of this machine's clock, an hour behind, the year 2200. The Reassembler
+// times events by its own clock.
+func stampFor(seq uint32) time.Time {
+	switch seq % 5 {
+	case 1:
+		return time.Now().Add(time.Hour).Truncate(time.Hour)
+	case 2:
+		return time.Now().Add(-time.Hour).Truncate(time.Hour)
+	case 3:
+		return time.Date(2200, 1, 1, 0, 0, 0, 0, time.UTC)
+	}
+	return time.Time{}
 }
 
 func rawPrefix(id int) string {
@@ -306,7 +321,7 @@ func exec(h History) *Trace {
 			if i%4 == 1 {
 				raw = "same text"
 			}
-			m := &auparse.AuditMessage{RecordType: auparse.AuditMessageType(o.Typ), Sequence: o.Seq, RawData: raw}
+			m := &auparse.AuditMessage{RecordType: auparse.AuditMessageType(o.Typ), Sequence: o.Seq, RawData: raw, Timestamp: stampFor(o.Seq)}
 			rec.byPtr[m] = i
 			st.T0 = time.Now()
 			r.PushMessage(m)
@@ -675,4 +690,62 @@ func runLongEvents(t *testing.T, h *hx.H, test string, prop func(History) error)
 		}
 		h.Class("event-of-many-records")
 	}
+}
+
+// seamHistories: five events whose sequence numbers straddle the 2^32 -> 0 roll-over (every position of the seam
+// among them), first seen in every one of the 120 orders, with maxInFlight 5 (nothing leaves before its EOE) and
+// 2 (overflow evicts). Then the EOEs in window order, Maintain, Close.
+func seamHistories() (hs []History, what []string) {
+	var perms [][]int
+	var rec func(p []int, used int)
+	rec = func(p []int, used int) {
+		if len(p) == 5 {
+			perms = append(perms, append([]int(nil), p...))
+			return
+		}
+		for i := 0; i < 5; i++ {
+			if used&(1<<i) == 0 {
+				rec(append(p, i), used|1<<i)
+			}
+		}
+	}
+	rec(nil, 0)
+	for _, back := range []uint32{1, 2, 3, 4} {
+		for _, mif := range []int{5, 2} {
+			for _, p := range perms {
+				h := History{MaxInFlight: mif, TimeoutNs: int64(time.Hour), Windowed: true, Base: -back - 6}
+				// an event delivered in order well before the seam, so that "in order" has a reference
+				h.Ops = append(h.Ops, Op{K: opPush, Seq: h.Base, Typ: 1300}, Op{K: opPush, Seq: h.Base, Typ: eoe})
+				// ... and the same with the end of every event arriving right after the first record of the next one
+				h2 := History{MaxInFlight: mif, TimeoutNs: h.TimeoutNs, Windowed: true, Base: h.Base, Ops: append([]Op(nil), h.Ops...)}
+				for k, i := range p {
+					h.Ops = append(h.Ops, Op{K: opPush, Seq: h.Base + 6 + uint32(i), Typ: 1300})
+					h2.Ops = append(h2.Ops, Op{K: opPush, Seq: h.Base + 6 + uint32(i), Typ: 1300})
+					if k > 0 {
+						h2.Ops = append(h2.Ops, Op{K: opPush, Seq: h.Base + 6 + uint32(p[k-1]), Typ: eoe})
+					}
+				}
+				for i := 0; i < 5; i++ {
+					h.Ops = append(h.Ops, Op{K: opPush, Seq: h.Base + 6 + uint32(i), Typ: eoe})
+				}
+				h.Ops = append(h.Ops, Op{K: opMaintain}, Op{K: opClose})
+				h2.Ops = append(h2.Ops, Op{K: opPush, Seq: h.Base + 6 + uint32(p[4]), Typ: eoe}, Op{K: opMaintain}, Op{K: opClose})
+				hs = append(hs, h, h2)
+				w := fmt.Sprintf("five events around the roll-over (the first %d before it), first seen in the order %v, maxInFlight %d", back, p, mif)
+				what = append(what, w, w+", each completed right after the next one was first seen")
+			}
+		}
+	}
+	return hs, what
+}
+
+func runSeam(t *testing.T, h *hx.H, test string, prop func(History) error) {
+	hs, what := seamHistories()
+	for i := range hs {
+		h.Eval()
+		if err := hx.Guard(prop, hs[i]); err != nil {
+			h.Fail(t, test, hs[i], "%s: %v", what[i], err)
+		}
+	}
+	h.Class("roll-over-in-every-arrival-order")
 }
